@@ -33,9 +33,15 @@ KQS = {
     "fixed": "quantized_bits(4,0,1,alpha=1)",
     "auto_po2": "quantized_bits(6,1,1,alpha='auto_po2')",
     "auto_po2_default": "quantized_bits(4,0,1)",     # alpha=None is promoted to auto_po2 by the layer
+    # 3 bits on bell-shaped weights: the data-dependent scale is not idempotent, so a scale that is only nominally
+    # frozen shows up as a change of predictions / a different second export
+    "auto_po2_3bit": "quantized_bits(3,0,1,alpha='auto_po2')",
     "po2": "quantized_po2(4)",
     "po2_wide": "quantized_po2(8)",            # exponents down to -64: zero weights are stored as 2^-64
     "relu_po2": "quantized_relu_po2(4)",
+    # max_value that is not a power of two (the clip acts on the exponent): the stored weight must stay sign*2^exponent
+    "po2_mv3": "quantized_po2(4,max_value=0.75)",
+    "relu_po2_mv": "quantized_relu_po2(4,max_value=0.375)",
     "binary_const": "binary(alpha=1)",
     "binary_auto": "binary(alpha='auto')",
     "ternary_const": "ternary(alpha=1)",
@@ -43,7 +49,7 @@ KQS = {
 }
 BQS = {"fixed": "quantized_bits(6,2,1,alpha=1)", "po2": "quantized_po2(5)", "none": None}
 KINDS = ["QDense", "QConv2D", "QDepthwiseConv2D", "QConv1D", "QSeparableConv2D", "QSimpleRNN", "QLSTM", "QGRU", "QBidirectional"]
-DATA_INDEP = {"fixed", "po2", "po2_wide", "relu_po2", "binary_const", "ternary_const"}
+DATA_INDEP = {"fixed", "po2", "po2_wide", "po2_mv3", "relu_po2_mv", "relu_po2", "binary_const", "ternary_const"}
 FREEZABLE = {"QDense", "QConv2D", "QDepthwiseConv2D"}
 HISTORIES = [["export"], ["export", "export"], ["freeze", "export"], ["freeze", "export", "export"]]
 
@@ -122,18 +128,21 @@ def build(case):
   if len(x.shape) > 2:
     x = L.Flatten(name="flat_out")(x)
   model = tf.keras.Model(inp, x)
-  set_weights(model, case["_seed"])
+  set_weights(model, case["_seed"], {"l%d" % i: ly["kq"] for i, ly in enumerate(case["layers"])})
   return model, (2,) + shape
 
 
-def set_weights(model, seed):
+def set_weights(model, seed, kq_of=None):
   for i, l in enumerate(model.layers):
     ws = l.get_weights()
     if not ws:
       continue
     new = []
     for j, w in enumerate(ws):
-      v = common.tensor(w.shape, "grid7", i + j + seed) * np.float32(0.8)
+      if (kq_of or {}).get(l.name) == "auto_po2_3bit" and w.ndim > 1:
+        v = common.tensor(w.shape, "bell", i + j + seed)
+      else:
+        v = common.tensor(w.shape, "grid7", i + j + seed) * np.float32(0.8)
       nm = l.weights[j].name
       if "variance" in nm:
         v = np.abs(v) + np.float32(0.25)
